@@ -50,11 +50,12 @@ def i9_stretch(seed, thorough):
     """One substituted byte *and* 300 filler octets appended: a length / count octet raised to a boundary value finds
     enough data behind it to be honoured (two coordinated deviations a single substitution cannot reach)."""
     n = len(seed)
-    filler = b'a' * 300
-    for p in positions(n, thorough)[:96 if not thorough else None]:
-        for v in (0x3f, 0x40, 0x7f, 0xff):
-            if v != seed[p]:
-                yield ('I9', p, v), seed[:p] + bytes((v,)) + seed[p + 1:] + filler
+    # two fillers: letters (more items / text follow) and zero octets (empty items / terminators follow)
+    for fi, filler in enumerate((b'a' * 300, b'\x00' * 300)):
+        for p in positions(n, thorough)[:96 if not thorough else None]:
+            for v in (0x3f, 0x40, 0x7f, 0xff):
+                if v != seed[p]:
+                    yield ('I9', p, v, fi), seed[:p] + bytes((v,)) + seed[p + 1:] + filler
 
 
 def i4_pairs(seed, thorough):
